@@ -58,6 +58,20 @@ def active():
     return _CTX is not None
 
 
+def _term_size(t, cap):
+    n = 0
+    stack = [t]
+    seen = set()
+    while stack and n < cap:
+        e = stack.pop()
+        if e.get_id() in seen:
+            continue
+        seen.add(e.get_id())
+        n += 1
+        stack.extend(e.children())
+    return n
+
+
 def _pyval(v):
     """z3 model value -> python (int / Fraction / bool / str)."""
     if z3.is_int_value(v):
@@ -100,6 +114,7 @@ class Explorer(object):
         self.solver_s = 0.0
         self.requires = 0         # assertions discharged
         self.sym_requires = 0     # ... of which the condition was a symbolic formula
+        self.rewrites = 0         # ... discharged by z3's polynomial normaliser (no sat query)
         self.require_labels = {}
         self.violations = []
         self.cut_reasons = {}
@@ -279,6 +294,9 @@ class Explorer(object):
         cond = z3.simplify(cond)
         if z3.is_true(cond):
             return True
+        if self._poly_identity(cond):
+            self.rewrites += 1
+            return True
         if self._check(z3.Not(cond)):
             m = self.solver.model()
             inputs = {k: _pyval(m.eval(t, model_completion=True)) for k, t in self.inputs.items()}
@@ -288,6 +306,18 @@ class Explorer(object):
                 raise PathAbort('assertion fails on the whole path')
             return False
         return True
+
+    def _poly_identity(self, cond):
+        """an equality between two polynomial terms whose canonical sum-of-monomials forms coincide
+        is the trivial `0 == 0` after normalisation of the encoding (pathsym.polynorm); anything
+        else goes to the solver."""
+        from . import polynorm
+        try:
+            if z3.is_eq(cond) and cond.arg(0).sort() == z3.RealSort():
+                return polynorm.is_zero_identity(cond.arg(0), cond.arg(1)) is True
+        except z3.Z3Exception:
+            pass
+        return False
 
     def fail(self, label, detail=None):
         """Unconditional failure of the current path (e.g. an exception the property forbids)."""
@@ -369,7 +399,7 @@ class Explorer(object):
                 'aborted': self.paths_aborted, 'cut': self.paths_cut, 'cut_reasons': self.cut_reasons,
                 'decisions': self.decisions, 'forks': self.forks, 'queries': self.queries,
                 'solver_s': round(self.solver_s, 4), 'requires': self.requires,
-                'sym_requires': self.sym_requires,
+                'sym_requires': self.sym_requires, 'rewrites': self.rewrites,
                 'require_labels': self.require_labels,
                 'violations': [v.as_dict() for v in self.violations],
                 'samples': self.samples, 'notes': self.notes,
@@ -409,7 +439,6 @@ def _rterm(v):
 
 
 class Sym(object):
-    __array_priority__ = 1000.0
     __slots__ = ()
 
 
@@ -676,6 +705,10 @@ class R(Sym):
         o2 = R.lift(o)
         if o2 is None:
             return NotImplemented
+        if not isinstance(o2.v, Fraction):
+            den = z3.simplify(o2.v)
+            if z3.is_rational_value(den):
+                o2 = R(Fraction(den.numerator_as_long(), den.denominator_as_long()))
         if isinstance(o2.v, Fraction):
             if o2.v == 0:
                 raise NonFinite('division by zero')
